@@ -5,7 +5,7 @@
 use std::cell::RefCell;
 use std::rc::Rc;
 
-use super::interp::{map_insert, rv_eq, to_val, valid_key, ErrClass, Interp, Stop, RV};
+use super::interp::{map_insert, rv_eq, to_val, valid_key, would_cycle, ErrClass, Interp, Stop, RV, SELF_CONTAINING};
 use super::ops::{self, pred, Expect};
 use super::p2::Val;
 
@@ -503,6 +503,9 @@ pub fn call_rv(it: &mut Interp, name: &str, args: &[RV]) -> Result<RV, Stop> {
         ("push", [RV::Arr(a), v]) => {
             if a.borrow().len() > it.max_len {
                 return Err(Stop::Budget);
+            }
+            if would_cycle(Rc::as_ptr(a) as *const (), v) {
+                return Err(Stop::Unspecified(SELF_CONTAINING.into()));
             }
             a.borrow_mut().push(v.clone());
             Ok(RV::Null)
